@@ -96,6 +96,14 @@ func main() {
 		for _, id := range ids {
 			fmt.Println(id, registry[id].Title)
 		}
+	case "gen-mutants":
+		if len(rest) != 1 {
+			usage()
+		}
+		if err := genMutants(rest[0]); err != nil {
+			fmt.Println(err)
+			os.Exit(2)
+		}
 	case "manifest":
 		if err := writeManifest(); err != nil {
 			fmt.Println(err)
